@@ -49,15 +49,20 @@ package prelude
 // abstract contents of every cache, and the answer of the latest Has per cache
 //@ ghost tcContent mapof[ref]set[string]
 //@ ghost tcHit mapof[ref]bool
+// tcShared: the caches may be used by other goroutines while this unit runs (another
+// caller may insert an item between two calls made here); units set it with `binds`
+//@ ghost tcShared bool
 //@ assume func github.com/keep-network/keep-common/pkg/cache.TimeCache.Add
 //@   modifies ghost.cacheAdds, ghost.cacheLastAdd, ghost.cacheLastKey, ghost.cacheLastCache, ghost.tcContent
 //@   ensures ghost.cacheAdds == old(ghost.cacheAdds) + 1 && ghost.cacheLastAdd == result && ghost.cacheLastKey == item && ghost.cacheLastCache == recv
-//@   ensures result == !(item in old(ghost.tcContent)[recv])
+//@   ensures result ==> !(item in old(ghost.tcContent)[recv])
+//@   ensures !result ==> (item in old(ghost.tcContent)[recv]) || ghost.tcShared
 //@   ensures forall c ref, k string :: { k in ghost.tcContent[c] } (k in ghost.tcContent[c]) <==> ((k in old(ghost.tcContent)[c]) || (c == recv && k == item))
 //@ assume func github.com/keep-network/keep-common/pkg/cache.TimeCache.Has
 //@   modifies ghost.cacheSeen, ghost.tcHit
 //@   ensures ghost.cacheSeen == (old(ghost.cacheSeen) || result)
-//@   ensures result == (item in ghost.tcContent[recv])
+//@   ensures (item in ghost.tcContent[recv]) ==> result
+//@   ensures result ==> (item in ghost.tcContent[recv]) || ghost.tcShared
 //@   ensures forall c ref :: { ghost.tcHit[c] } ghost.tcHit[c] == ite(c == recv, result, old(ghost.tcHit)[c])
 //@ assume func github.com/keep-network/keep-common/pkg/cache.TimeCache.Sweep
 //@   modifies ghost.tcContent
